@@ -493,11 +493,15 @@ func (fv *FuncVC) canInline(fr *Frame, callee *ssa.Function, con *Contract) bool
 	}
 	loops := computeLoops(callee)
 	if len(loops) > 0 {
-		// loops need invariants
-		if con == nil {
-			return false
-		}
+		// loops need invariants: the callee's own `loop n` blocks, or blocks of the function under verification assigned
+		// to them by the retry after an "extract method" edit
 		for _, li := range loops {
+			if _, ok := fv.helperLoops[fmt.Sprintf("%s#%d", funcKey(callee), li.ordinal)]; ok {
+				continue
+			}
+			if con == nil {
+				return false
+			}
 			if _, ok := con.Loops[li.ordinal]; !ok {
 				return false
 			}
